@@ -3,6 +3,10 @@ import Jrpc.Generated.Progs
 import Jrpc.Auth
 import Jrpc.Frames
 import Jrpc.Dispatch
+import Jrpc.Call
+import Jrpc.BatchWriter
+import Jrpc.Reader
+import Jrpc.Backoff
 /-
   Jrpc.TransDefs — everything the translation theorems (JrpcProofs/Trans/*.lean) are stated with: how model values are
   encoded as MiniGo values, and the extern semantics (`…Ext`) each group of translated functions is run with.  It lives in
@@ -149,5 +153,155 @@ def fmtExt : Ext
 
 def fmtEnv (inc lower : Bool) (ns m : String) : Env :=
   [("includeNamespace", .bool inc), ("nameCase", .int (if lower then 1 else 0)), ("namespace", .str ns), ("method", .str m)]
+
+/-! ### processFuncOut -/
+
+def tyVal (name : String) : Val := .tag "type" (.str name)
+
+/-- `funcType` of a method with the given result types (`true` = the `error` interface). -/
+def outsExt (outs : List Bool) : Ext
+  | "funcType.NumOut", [], env => .ok (.int outs.length) env
+  | "funcType.Out", [.int i], env =>
+    match outs[i.toNat]? with
+    | some true => .ok (tyVal "error") env
+    | some false => .ok (tyVal "T") env
+    | none => .panic "reflect: Out index out of range"
+  | "fmt.Sprintf", _, env => .ok (.str "too many return values") env
+  | fn, _, _ => .stuck fn
+
+def outsEnv : Env := [("funcType", .tag "funcType" .nil), ("errorType", tyVal "error")]
+
+def OutShape.results : OutShape → List Bool
+  | .none => [] | .val => [false] | .err => [true] | .valErr => [false, true]
+
+def optPos : Option Nat → Val
+  | some n => .int n
+  | none => .int (-1)
+
+/-! ### batchWriter -/
+
+def pieceVal : BatchWriter.Piece → Val
+  | .lbrack => .str "[" | .comma => .str "," | .rbrack => .str "]" | .data c => .str c
+
+/-- The underlying writer never fails and records what it is given; `[]byte(s)` is `s`. -/
+def bwExt : Ext
+  | "len", [.str s], env => .ok (.int s.length) env
+  | "[]byte", [.str s], env => .ok (.str s) env
+  | "b.w.Write", [.str s], env => .ok (.cons (.int s.length) (.cons .nil .nil)) (logFx env (.str s))
+  | fn, _, _ => .stuck fn
+
+def bwEnv (b : BatchWriter.BW) : Env :=
+  [("b.started", .bool b.started), ("b.elemStarted", .bool b.elemStarted)]
+
+def Out.bw (o : Out) : Option (Bool × Bool) :=
+  match o with
+  | .ret _ env =>
+    match env.get "b.started", env.get "b.elemStarted" with
+    | some (.bool a), some (.bool b) => some (a, b)
+    | _, _ => none
+  | _ => none
+
+/-! ### httpio.waitReadCloser -/
+
+def eofErr : Val := .tag "error" (.str "EOF")
+
+/-- The state of a `waitReadCloser` as MiniGo variables: the sticky error, whether `wait` is closed and how often
+    `close(w.wait)` ran; "$once" is the `sync.Once`. -/
+def wrcEnv (w : Reader.WRC) : Env :=
+  [("w.err", if w.stickyEOF then eofErr else .nil), ("w.wait", .tag "chan" .nil),
+   ("$once", .bool w.waitClosed), ("$closed", .bool w.waitClosed), ("$closes", .int w.closeCount)]
+
+/-- `body`: what the wrapped request body answers to the next `Read` (bytes delivered, error). -/
+def wrcExt (bodyN : Nat) (bodyErr : Bool) : Ext
+  | "w.ReadCloser.Read", [_], env => .ok (.cons (.int bodyN) (.cons (if bodyErr then eofErr else .nil) .nil)) (logFx env (.str "body.Read"))
+  | "w.ReadCloser.Close", [], env => .ok .nil (logFx env (.str "body.Close"))
+  | "w.closeWait.Do", [.tag "funclit" (.str f)], env =>
+    if env.get "$once" = some (.bool true) then .ok .nil env
+    else
+      -- the closure is the translated literal: it must be `close(w.wait)`
+      match run (fun fn _ e => match fn with
+          | "close" =>
+            if e.get "$closed" = some (.bool true) then .panic "close of closed channel"
+            else .ok .nil ((e.set "$closed" (.bool true)).set "$closes" (match e.get "$closes" with | some (.int n) => .int (n + 1) | _ => .int 1))
+          | fn => .stuck fn)
+        (if f = "httpio_waitReadCloser_Read_lit1" then prog_httpio_waitReadCloser_Read_lit1
+         else if f = "httpio_waitReadCloser_Close_lit1" then prog_httpio_waitReadCloser_Close_lit1
+         else .exprS (.call ("unknown closure " ++ f) .nilE))
+        env with
+      | .ret _ env' => .ok .nil (env'.set "$once" (.bool true))
+      | .panic w => .panic w
+      | .stuck w => .stuck w
+  | fn, _, _ => .stuck fn
+
+/-- Read back the `waitReadCloser` state. -/
+def Out.wrc (o : Out) : Option (Bool × Bool × Int) :=
+  match o with
+  | .ret _ env =>
+    match env.get "w.err", env.get "$closed", env.get "$closes" with
+    | some e, some (.bool c), some (.int n) => some (e != .nil, c, n)
+    | _, _, _ => none
+  | _ => none
+
+/-! ### auth.Handler.ServeHTTP -/
+
+def ctx0 : Val := .tag "ctx" .nil
+
+/-- Request with the given Authorization header ("" = absent) and `token` query parameter ("" = absent); `verify`
+    is the application's verifier. -/
+def httpExt (header query : String) (verify : List Char → Option (List String)) : Ext
+  | "r.Context", [], env => .ok ctx0 env
+  | "r.Header.Get", [.str "Authorization"], env => .ok (.str header) env
+  | "r.URL.Query", [], env => .ok (.tag "query" .nil) env
+  | ".Get", [.tag "query" _, .str "token"], env => .ok (.str query) env
+  | "strings.HasPrefix", [.str s, .str p], env => .ok (.bool (p.toList.isPrefixOf s.toList)) env
+  | "strings.TrimPrefix", [.str s, .str p], env =>
+    .ok (.str (if p.toList.isPrefixOf s.toList then String.ofList (s.toList.drop p.toList.length) else s)) env
+  | "h.Verify", [_, .str tok], env =>
+    match verify tok.toList with
+    | some ps => .ok (.cons (Val.strs ps) (.cons .nil .nil)) env
+    | none => .ok (.cons .nil (.cons (errVal "verify") .nil)) env
+  | "w.WriteHeader", [.int c], env => .ok .nil (logFx env (.cons (.str "status") (.int c)))
+  | "WithPerm", [_, allow], env => .ok (.tag "ctx+perm" allow) env
+  | "r.WithContext", [c], env => .ok (.tag "req" c) env
+  | "h.Next", [_, r], env => .ok .nil (logFx env (.cons (.str "next") r))
+  | fn, _, _ => .stuck fn
+
+def encHttpOut : Auth.HttpOut → Val
+  | .next none => .cons (.str "next") (.tag "req" ctx0)
+  | .next (some ps) => .cons (.str "next") (.tag "req" (.tag "ctx+perm" (Val.strs ps)))
+  | .unauthorized => .cons (.str "status") (.int 401)
+
+def httpEnv : Env := [("w", .tag "w" .nil), ("r", .tag "r" .nil), ("h", .tag "h" .nil)]
+
+/-! ### response.MarshalJSON -/
+
+/-- A `key: value` element of a composite literal as a map entry. -/
+def kvOf : Val → Val
+  | .cons k (.cons v .nil) => .cons k v
+  | v => v
+
+/-- A map literal builds an association chain; `json.Marshal` is recorded with its argument. -/
+def wireExt : Ext
+  | "lit:map[string]interface{}", kvs, env => .ok (Val.ofList (kvs.map kvOf)) env
+  | "json.Marshal", [m], env => .ok (.cons (.tag "json" m) (.cons .nil .nil)) (logFx env m)
+  | fn, _, _ => .stuck fn
+
+def respEnv (jsonrpc id result err : Val) : Env :=
+  [("r.Jsonrpc", jsonrpc), ("r.ID", id), ("r.Result", result), ("r.Error", err)]
+
+/-! ### backoff.next -/
+
+def rat (n d : Nat) : Val := .tag "rat" (.cons (.int n) (.int d))
+
+/-- float64 arithmetic is exact rational arithmetic (as in `Jrpc.Backoff`); `rand.Float64()` is `jn / jd`. -/
+def backoffExt (jn jd : Nat) : Ext
+  | "float64", [.int n], env => .ok (rat n.toNat 1) env
+  | "math.Pow", [.tag "float" (.str "1.5"), .tag "rat" (.cons (.int a) (.int 1))], env => .ok (rat (3 ^ a.toNat) (2 ^ a.toNat)) env
+  | "rand.Float64", [], env => .ok (rat jn jd) env
+  | "time.Duration", [.tag "rat" (.cons (.int n) (.int d))], env => .ok (.int ((n.toNat / d.toNat : Nat) : Int)) env
+  | fn, _, _ => .stuck fn
+
+def backoffEnv (b : Backoff) (attempt : Int) : Env :=
+  [("b.minDelay", .int b.minDelay), ("b.maxDelay", .int b.maxDelay), ("attempt", .int attempt)]
 
 end Jrpc.Trans
